@@ -18,7 +18,7 @@ CHECKS["C14"] = dict(
  text="For all (m,C,G) under the representation invariant, all hbar>0, all angles, every ordered mode tuple at d<=3 (quick) / d<=4 (thorough): the xpxp/xxpp/complex/ladder representations agree with their definitions, setters and getters are mutually inverse, reduction and rotation commute with them, means scale with sqrt(hbar) and covariances with hbar, and purity / photon number / the arguments handed to the hbar-free click-probability and density-matrix kernels are identical polynomials at hbar and at hbar=1. Fidelity, parity, phase-shifter expectation (matrix inverse / eigenvalues) only by the bounded stand-in.",
  note="floats as reals; shapes enumerated; displaced branch at a generic point; kernels receiving hbar-free arrays assumed to have no other access to hbar (they take no config); bounded part: 6/40 random states x 4 hbar values, tol 1e-7",
 )
-SETUP_CMD = "/venv/bin/python vf/lean.py"
+SETUP_CMD = "/venv/bin/python -m vf.lean"
 ENGINES += [
  {"name": "pyvc", "path": "vf/pyvc.py", "serves_properties": ["C06", "C14"],
   "kind_free_text": "Python AST -> verification conditions: forward symbolic execution of the real function body (re-parsed on every run) against a sidecar contract; loops cut by invariants, calls by callee contracts, machine-range/bounds/division obligations; SMT-LIB to z3 5.1 / z3 4.8 / cvc5; lemma instances only through explicit ghost `use`"},
